@@ -30,7 +30,7 @@ def field (ws : List String) (k : String) : Option Nat :=
 def emit (s : JS) (oracle : Bool) (msg : String) : IO JS := do
   let cat := String.intercalate " " ((words msg).take 3)
   let n := (s.printed.lookup cat).getD 0
-  if n < 3 then IO.println (msg ++ s!" pattern={s.hdr.replace " " "_"} ops={(String.intercalate "|" (s.ops.reverse.drop (s.ops.length - 12))).replace " " "~"}")
+  if n < 3 then IO.println (msg ++ s!" pattern={s.hdr.replace " " "_"} ops={(String.intercalate "|" s.ops.reverse).replace " " "~"}")
   return { s with printed := (cat, n + 1) :: s.printed.filter (·.1 != cat),
                   fails := if oracle then s.fails + 1 else s.fails, diffs := if oracle then s.diffs else s.diffs + 1, model := none }
 
@@ -58,7 +58,7 @@ def step (s : JS) (line : String) : IO JS := do
     return { s with model := none, c0 := (field ws "c0").getD 0, M := (field ws "M").getD 0, window := (field ws "window").getD 0,
                     hdr := String.intercalate " " ws, pendingOp := none, ops := [], patterns := s.patterns + 1, allocsAtBig := none, countFlagged := false }
   | "r" :: "init" :: [c] => return { s with pendingOp := some ["init", c] }
-  | "r" :: ws => return { s with pendingOp := some ws, ops := String.intercalate " " ws :: s.ops }
+  | "r" :: ws => return { s with pendingOp := some ws, ops := (String.intercalate " " ws :: s.ops).take 12 }
   | "rs" :: ws =>
     match s.pendingOp with
     | some ["init", c] =>
